@@ -29,7 +29,7 @@ def stream_straddle_with_fallback(c):
     return False
 
 
-def run(chk):
+def _run_once(chk):
     chk.rule = ("for n in 0..4 parts: 1-3 bounds with sides in ±(n+2)/open (so each bound independently resolves, overshoots on the left, "
                 "on the right, positively or negatively, or crosses), each with own fallback or not, × generic fallback or not, through: "
                 "-f general path, fast path, --json, -m, -c, -b, -l (both algorithms), -M; non-trivial = some bound unresolvable or output "
@@ -122,3 +122,9 @@ def run(chk):
             chk.report_oracle("a bound that cannot be resolved is not handled by the fallback rule",
                               {"case": l, "implementation": i, "specification": s}, finding_key=key)
     cmp_model(chk, cases, impl, model, "K-engines")
+
+
+def run(chk):
+    # thorough = several independent rounds of the same generators (the PRNG keeps advancing), so that memory stays bounded
+    for _round in range(1 if chk.tier == "quick" else 6):
+        _run_once(chk)
